@@ -27,6 +27,11 @@ CLAIMED = {
             "Run-length codecs: for every sequence of up to 5 runs with counts of ANY magnitude (up to a stated multiple of the dtype maximum where the code builds repeat lists) the converted encoding decodes to the same dense array at every position (one forall-position obligation per path). "
             "Encoding classes and dense round trips: every bool array of 4-6 cells x every mask, through each read API separately. VoxelGrid: every translation and in-cell offset, scale from a rational catalogue.",
             TRUSTED + "counts non-negative; the binvox file body is not claimed (C-level codecs, cf. C08); encoding classes only on 2x2x1 arrays; five genuine defects of the lazy encoding views are listed in known_findings.json."),
+    "C09": ("model_checking", "DESIGN.md#c09", "symbolic histories (forest shape, mutation kinds/operands, query sweeps as solver variables resolved by forking) run on the real SceneGraph with symbolic edge matrices; z3 decides every answer against a dictionary reference forest; counterexample histories replayed on float code",
+            "Bounded symbolic model checking of the real scene graph: every history of (initial forest over 4 frames) ; optional full query sweep ; 1 (quick) or 2 (thorough) mutations with symbolic operands ; sweeps in between ; "
+            "full sweep + edge-list rebuild is executed, and for ALL edge matrices in the group x->s*x+t each query equals the product along the reference path (or raises when disconnected). "
+            "Caches (resolved transforms, shortest paths, forest hash) are exercised by the sweep placement, which is what staleness depends on.",
+            TRUSTED + "edge matrices restricted to uniform-scale+translation (non-commutative, closed under product/inverse) with prime-separated scales so that the 1e-8 shortcuts and fix_rigid's SVD band are unreachable; at most 4 frames and 2 mutations; kwargs other than matrix= are covered by C19."),
 }
 
 NOT_APPLICABLE = {
